@@ -34,12 +34,20 @@ def _visit_method(method):
     @functools.wraps(method)
     def wrapper(inst, node):
         try:
-            node = inst.enter(node)
+            entered = inst.enter(node)
         except SkipNode:
             return node
 
+        body = method
+        if entered is not None and entered.__class__ is not node.__class__:
+            # ``enter`` swapped the node for one of another class (a spread for
+            # an inline fragment, a variable for a literal...): traverse the
+            # children the replacement has, not the ones the original had.
+            body = _BODIES.get(entered.__class__, method)
+
+        node = entered
         if node is not None:
-            node = method(inst, node)
+            node = body(inst, node)
 
         if node is not None:
             inst.leave(node)
@@ -452,6 +460,78 @@ class ASTVisitor:
             self._visit_input_value_definition, definition.arguments
         )
         return definition
+
+
+# Children traversal (the undecorated ``_visit_*`` function) by node class, for
+# nodes that ``enter`` replaced by a node of another class, see _visit_method.
+_BODIES = {
+    cls: getattr(ASTVisitor, name).__wrapped__
+    for name, classes in (
+        ("_visit_document", (_ast.Document,)),
+        ("_visit_operation_definition", (_ast.OperationDefinition,)),
+        ("_visit_fragment_definition", (_ast.FragmentDefinition,)),
+        ("_visit_variable_definition", (_ast.VariableDefinition,)),
+        ("_visit_selection_set", (_ast.SelectionSet,)),
+        ("_visit_field", (_ast.Field,)),
+        ("_visit_fragment_spread", (_ast.FragmentSpread,)),
+        ("_visit_inline_fragment", (_ast.InlineFragment,)),
+        ("_visit_argument", (_ast.Argument,)),
+        ("_visit_directive", (_ast.Directive,)),
+        ("_visit_variable", (_ast.Variable,)),
+        (
+            "_visit_value",
+            (
+                _ast.IntValue,
+                _ast.FloatValue,
+                _ast.StringValue,
+                _ast.BooleanValue,
+                _ast.NullValue,
+                _ast.EnumValue,
+                _ast.ListValue,
+                _ast.ObjectValue,
+            ),
+        ),
+        ("_visit_object_field", (_ast.ObjectField,)),
+        ("_visit_type", (_ast.NamedType, _ast.ListType, _ast.NonNullType)),
+        (
+            "_visit_schema_definition",
+            (_ast.SchemaDefinition, _ast.SchemaExtension),
+        ),
+        (
+            "_visit_operation_type_definition",
+            (_ast.OperationTypeDefinition,),
+        ),
+        (
+            "_visit_scalar_type_definition",
+            (_ast.ScalarTypeDefinition, _ast.ScalarTypeExtension),
+        ),
+        (
+            "_visit_object_type_definition",
+            (_ast.ObjectTypeDefinition, _ast.ObjectTypeExtension),
+        ),
+        ("_visit_field_definition", (_ast.FieldDefinition,)),
+        ("_visit_input_value_definition", (_ast.InputValueDefinition,)),
+        (
+            "_visit_interface_type_definition",
+            (_ast.InterfaceTypeDefinition, _ast.InterfaceTypeExtension),
+        ),
+        (
+            "_visit_union_type_definition",
+            (_ast.UnionTypeDefinition, _ast.UnionTypeExtension),
+        ),
+        (
+            "_visit_enum_type_definition",
+            (_ast.EnumTypeDefinition, _ast.EnumTypeExtension),
+        ),
+        ("_visit_enum_value_definition", (_ast.EnumValueDefinition,)),
+        (
+            "_visit_input_object_type_definition",
+            (_ast.InputObjectTypeDefinition, _ast.InputObjectTypeExtension),
+        ),
+        ("_visit_directive_definition", (_ast.DirectiveDefinition,)),
+    )
+    for cls in classes
+}
 
 
 class DispatchingVisitor(ASTVisitor):
